@@ -284,14 +284,18 @@ pub struct Assign<F: PrimeField> {
 }
 
 impl<F: PrimeField> Assign<F> {
+    /// Value of a variable; a handle the model does not know (possible only when the subject
+    /// handed out a handle the reference allocator would not have) evaluates to zero instead of
+    /// taking the harness down - the divergence itself is recorded in `Ctx::problems`.
     pub fn get(&self, var: &Variable<F>) -> F {
+        let z = F::zero();
         match var {
-            Variable::Committed(i) => self.v[*i],
-            Variable::MultiplierLeft(i) => self.l[*i],
-            Variable::MultiplierRight(i) => self.r[*i],
-            Variable::MultiplierOutput(i) => self.o[*i],
+            Variable::Committed(i) => self.v.get(*i).cloned().unwrap_or(z),
+            Variable::MultiplierLeft(i) => self.l.get(*i).cloned().unwrap_or(z),
+            Variable::MultiplierRight(i) => self.r.get(*i).cloned().unwrap_or(z),
+            Variable::MultiplierOutput(i) => self.o.get(*i).cloned().unwrap_or(z),
             Variable::One() => F::one(),
-            _ => F::zero(),
+            _ => z,
         }
     }
     pub fn eval(&self, terms: &[(Variable<F>, F)]) -> F {
@@ -891,7 +895,12 @@ fn end_of_section<F: PrimeField>(ctx: &mut Ctx<F>, side: &mut dyn Side<F>, last:
                 if recompute_o {
                     a.o[gate] = a.l[gate] * a.r[gate];
                 }
-                side.override_gate(gate, a.l[gate], a.r[gate], a.o[gate]);
+                let (l, r, o) = (a.l[gate], a.r[gate], a.o[gate]);
+                if gate < side.cs().multipliers_len() {
+                    side.override_gate(gate, l, r, o);
+                } else {
+                    ctx.problems.push(format!("gate override: the subject has no gate {}", gate));
+                }
             }
         }
         if let Dev::Gate { gate, field, delta } = ctx.dev.clone() {
@@ -905,7 +914,12 @@ fn end_of_section<F: PrimeField>(ctx: &mut Ctx<F>, side: &mut dyn Side<F>, last:
                     1 => a.r[gate] += delta,
                     _ => a.o[gate] += delta,
                 }
-                side.override_gate(gate, a.l[gate], a.r[gate], a.o[gate]);
+                let (l, r, o) = (a.l[gate], a.r[gate], a.o[gate]);
+                if gate < side.cs().multipliers_len() {
+                    side.override_gate(gate, l, r, o);
+                } else {
+                    ctx.problems.push(format!("gate override: the subject has no gate {}", gate));
+                }
             }
         }
     }
@@ -1128,6 +1142,19 @@ pub fn prove<G: AffineRepr>(
         },
         Err(e) => Proved { proof: Err(format!("{:?}", e)), commitments, ctx, transcript: None },
     }
+}
+
+/// `prove` with unwinds caught: Err carries the panic text. Checks other than C01 treat a
+/// prover that fails or panics on an honest run as a failed precondition (C01's business).
+pub fn try_prove<G: AffineRepr>(
+    prog: &Program,
+    pc: &PedersenGens<G>,
+    bp: &BulletproofGens<G>,
+    seed: u64,
+    rng_tag: &str,
+    dev: Dev<G::ScalarField>,
+) -> Result<Proved<G>, String> {
+    crate::evidence::guarded(|| prove::<G>(prog, pc, bp, seed, rng_tag, dev)).map_err(|m| format!("prove panicked: {}", m))
 }
 
 pub struct Verified<F: PrimeField> {
